@@ -296,7 +296,7 @@ def toolchain_skew(repo):
     return diffs
 
 
-def extract(flavour='dev', repo=None, keep_json=None, spec=None):
+def extract(flavour='dev', repo=None, keep_json=None, spec=None, crate='pc_keyboard'):
     """Compile `repo` with the dump driver; return the parsed fact document."""
     repo = repo or REPO
     dbg = os.environ.get('PKV_FACTS_FILE')   # debugging aid only: reuse a fact file (never set by registered commands)
@@ -318,7 +318,7 @@ def extract(flavour='dev', repo=None, keep_json=None, spec=None):
             'LD_LIBRARY_PATH': os.path.join(nightly_sysroot(), 'lib'),
             'CARGO_NET_OFFLINE': 'true',
             'PKV_OUT': out,
-            'PKV_CRATE': 'pc_keyboard',
+            'PKV_CRATE': crate,
         })
         spec = spec or FLAVOURS[flavour]
         flags = flavour_flags(spec)
@@ -340,7 +340,7 @@ def extract(flavour='dev', repo=None, keep_json=None, spec=None):
             raw = f.read()
         raw = normalize_paths(raw)
         doc = json.loads(raw)
-        if doc.get('crate') != 'pc_keyboard':
+        if doc.get('crate') != crate:
             raise FactError('fact file is for crate %r' % doc.get('crate'))
         # a build script can make what is compiled depend on the build environment in ways no rustc fact shows
         doc['_build_script'] = os.path.exists(os.path.join(repo, 'build.rs')) or bool(
